@@ -6,6 +6,7 @@
  *   anon <pages> <perms rwx-> <unmap_after 0|1>            anonymous mapping with address-derived fill
  *   file <path> <offset> <pages> <perms>                   file mapping
  *   fill <anon-idx> <byte>                                 every byte of that mapping set to the value
+ *   threadd <kind> <sp_off> <pages> <above> <name-hex|->   deep stack: <above> whole pages above the page of the stack pointer
  *   poke <thread-idx> <off> <anon-idx> <aoff>              store &anon[aoff] at thread's sp+off (after both lines)
  *   anonat <hexaddr> <pages> <perms>                       anonymous mapping at a fixed address
  *   filexat <hexaddr> <hexpath> <offset> <pages> <perms>   file mapping at a fixed address
@@ -128,6 +129,19 @@ int main(int argc, char **argv) {
       t->sp = (uint64_t)(m + 4096) + (size_t)(u2 - 1) * 4096 + off;
       fl += snprintf(facts + fl, sizeof facts - fl, " t%d.stack=%lx t%d.sp=%lx", NT, (unsigned long)(m + 4096), NT, (unsigned long)t->sp);
       NT++;
+    } else if (sscanf(line, "threadd %63s %u %u %u %511s", a, &u1, &u2, &u3, b) == 5) {
+      /* a DEEP stack: u3 whole pages lie above the page of the stack pointer (an outer frame far above an inner one) */
+      struct tcfg *t = &T[NT]; t->idx = NT; t->sp_off = u1; t->pages = u2 + u3;
+      t->kind = !strcmp(a, "spin") ? K_SPIN : K_BLOCK;
+      t->has_name = strcmp(b, "-") != 0; if (t->has_name) unhex(b, t->name, 16);
+      size_t tot = (size_t)u2 + u3;
+      unsigned char *m = mmap(0, (tot + 2) * 4096, PROT_READ | PROT_WRITE, MAP_PRIVATE | MAP_ANONYMOUS, -1, 0);
+      for (size_t i = 4096; i < (tot + 1) * 4096; i++) m[i] = (unsigned char)(((uintptr_t)(m + i) * 2654435761u) >> 7);
+      munmap(m, 4096); munmap(m + (tot + 1) * 4096, 4096);
+      unsigned off = (u1 & 4095 & ~7u);
+      t->sp = (uint64_t)(m + 4096) + (size_t)(u2 - 1) * 4096 + off;
+      fl += snprintf(facts + fl, sizeof facts - fl, " t%d.stack=%lx t%d.sp=%lx", NT, (unsigned long)(m + 4096), NT, (unsigned long)t->sp);
+      NT++;
     } else if (sscanf(line, "threadat %63s %lx %u %511s", a, &ul1, &u2, b) == 4) {
       struct tcfg *t = &T[NT]; t->idx = NT; t->sp_off = 0; t->pages = u2;
       t->kind = !strcmp(a, "spin") ? K_SPIN : K_BLOCK;
@@ -179,6 +193,8 @@ int main(int argc, char **argv) {
       if (!strcmp(a, "file")) open("/proc/self/cmdline", O_RDONLY); else if (!strcmp(a, "dir")) open("/tmp", O_RDONLY | O_DIRECTORY);
       else if (!strcmp(a, "pipe")) { int p[2]; if (pipe(p)) return 4; } else if (!strcmp(a, "socket")) { int sv[2]; socketpair(AF_UNIX, SOCK_STREAM, 0, sv); }
       else if (!strcmp(a, "eventfd")) eventfd(0, 0);
+      /* a file whose name is not valid UTF-8 (opened, then unlinked: nothing is left behind) */
+      else if (!strcmp(a, "odd")) { char pth[128]; snprintf(pth, sizeof pth, "/tmp/mdw-odd-\xff\xfe-%d-%d.dat", (int)getpid(), fl); int o = open(pth, O_RDWR | O_CREAT, 0600); if (o >= 0) unlink(pth); }
     } else if (sscanf(line, "chain %u %u", &u1, &u2) == 2) {
       unsigned char *m = mmap(0, 3 * 4096, PROT_READ | PROT_WRITE, MAP_PRIVATE | MAP_ANONYMOUS, -1, 0); munmap(m + 8192, 4096);
       struct fake *k = (struct fake *)m; struct link_map *lm = (struct link_map *)(m + 1024); char *names = (char *)(m + 4096);
